@@ -37,6 +37,7 @@
 (***************************************************************************)
 EXTENDS Naturals, Sequences, FiniteSets, TLC, Json
 CONSTANTS MaxSites,      \* |S| <= MaxSites
+          ClassSites,    \* every builtin name class is explored for |S| <= ClassSites, one class beyond
           ReadSites      \* read sites explored (subset of AllReadSites)
 
 \* LATE: a <% %> assignment in the body that stands AFTER the read: by Python's rule the name is
@@ -44,7 +45,10 @@ CONSTANTS MaxSites,      \* |S| <= MaxSites
 \* UnboundLocalError unless an earlier binding of the same local exists
 \* (write_variable_declares: "to_write.difference(identifiers.locally_declared)")
 Sites == {"CTX", "PAGE", "BODY", "DEFARG", "ENCL", "LOOP", "MOD", "IMP", "BUILTIN", "LATE"}
-BodyLevel == {"R_BODY", "R_ANON", "R_CALLBODY", "R_CTL", "R_ATTR", "R_FILTER", "R_FILTERARG"}
+\* further expression positions of the page body: the args= and file= expressions of <%include>, the expr=
+\* of <%call>, the filter= of <%text> (all evaluated in render_body itself) and of an anonymous <%block>
+BodyLevel == {"R_BODY", "R_ANON", "R_CALLBODY", "R_CTL", "R_ATTR", "R_FILTER", "R_FILTERARG",
+              "R_INCARGS", "R_INCFILE", "R_CALLEXPR", "R_TEXTFILTER", "R_BLOCKFILTER"}
 \* The call PATH of a top-level def called by name is part of the read site: where in the page body the
 \* call is written decides which generated function holds the def's stub (write_def_decl), and every
 \* such stub has to hand over context._locals(__M_locals).  R_TOPDEF_BYNAME: the call stands in the body
@@ -53,13 +57,15 @@ BodyLevel == {"R_BODY", "R_ANON", "R_CALLBODY", "R_CTL", "R_ATTR", "R_FILTER", "
 \* <%self:def> tag; _VIADEF: another top-level def, itself called by name from the body, calls it (the
 \* callee then receives the caller's context, which already carries the locals); R_TOPDEF_VIADEF_SELF:
 \* the intermediate def was reached through self., so there are no body locals anywhere on the path.
-ByNamePaths == {"R_TOPDEF_BYNAME", "R_TOPDEF_BYNAME_CTL", "R_TOPDEF_BYNAME_ANON", "R_TOPDEF_BYNAME_CALLBODY",
+\* R_DEFFILTER: the name stands in the filter= expression of the def (evaluated inside the def's function).
+ByNamePaths == {"R_DEFFILTER", "R_TOPDEF_BYNAME", "R_TOPDEF_BYNAME_CTL", "R_TOPDEF_BYNAME_ANON", "R_TOPDEF_BYNAME_CALLBODY",
                 "R_TOPDEF_BYNAME_CALLBODYARGS", "R_TOPDEF_BYNAME_NSCALL", "R_TOPDEF_BYNAME_VIADEF"}
 SelfPaths == {"R_TOPDEF_SELF", "R_TOPDEF_VIADEF_SELF"}
 NestedByName == {"R_NESTED", "R_NESTED_CALLBODY"}
 DefReads == ByNamePaths \cup SelfPaths \cup NestedByName \cup {"R_NESTED_SELF"}
 AllReadSites == BodyLevel \cup DefReads \cup {"R_NAMED"}
-DirectBody == {"R_BODY", "R_CTL", "R_ATTR", "R_FILTER", "R_FILTERARG"}   \* the read is in render_body itself
+DirectBody == {"R_BODY", "R_CTL", "R_ATTR", "R_FILTER", "R_FILTERARG",
+               "R_INCARGS", "R_INCFILE", "R_CALLEXPR", "R_TEXTFILTER"}     \* the read is in render_body itself
 ByName == ByNamePaths \cup NestedByName      \* the enclosing top-level def is called by name from the body
 
 \* which skeletons exist: a def argument needs a def, an enclosing-def local needs a nested def,
@@ -75,16 +81,22 @@ Applicable(S, r) ==
 \* the function's local variable, LATEST assignment first (the read comes after all of them)
 BodyFrame == <<"LOOP", "BODY", "PAGE">>
 Frames(r) ==
-  CASE r \in {"R_BODY", "R_CTL", "R_ATTR", "R_FILTER", "R_FILTERARG"} -> <<BodyFrame>>
-    [] r \in {"R_ANON", "R_CALLBODY"} -> << <<>>, BodyFrame >>     \* closure inside render_body
+  CASE r \in DirectBody -> <<BodyFrame>>
+    [] r \in {"R_ANON", "R_CALLBODY", "R_BLOCKFILTER"} -> << <<>>, BodyFrame >>     \* closure inside render_body
     [] r \in ByNamePaths \cup SelfPaths -> << <<"DEFARG">> >>
     [] r \in NestedByName \cup {"R_NESTED_SELF"} -> << <<>>, <<"ENCL", "DEFARG">> >>
     [] r = "R_NAMED" -> << <<>> >>
 \* what context.get sees at r, topmost layer first
 CtxLayers(r) == IF r \in ByName THEN <<"BODY", "PAGE", "CTX">> ELSE <<"CTX">>
 
-VARIABLES S, r, strict, pc, fi, res, hops
-vars == <<S, r, strict, pc, fi, res, hops>>
+\* Which builtin the name is, when the BUILTIN site is active: the property says "a Python builtin", i.e.
+\* whatever the builtins module holds WHEN THE TEMPLATE RENDERS -- an ordinary public function (len), a
+\* name that is commonly shadowed (id, format, type), a dunder builtin (__import__), a name installed into
+\* the builtins module at run time before the render (builtins._ of gettext.install()), an exception
+\* class.  The class changes nothing in the walk: HopBuiltin resolves for every class alike.
+BuiltinClasses == {"public", "shadowable", "dunder", "runtime", "exception"}
+VARIABLES S, r, strict, bclass, pc, fi, res, hops
+vars == <<S, r, strict, bclass, pc, fi, res, hops>>
 
 \* render_body receives the page argument from the render arguments when they have the name
 Value(site) == IF site = "PAGE" /\ "CTX" \in S THEN "CTX" ELSE site
@@ -94,10 +106,12 @@ First(seq) == seq[CHOOSE i \in Active(seq) : \A j \in Active(seq) : i <= j]
 Init == /\ S \in {T \in SUBSET Sites : Cardinality(T) <= MaxSites}
         /\ r \in ReadSites /\ Applicable(S, r)
         /\ strict \in BOOLEAN
+        /\ bclass \in (IF "BUILTIN" \notin S THEN {"none"}
+                        ELSE IF Cardinality(S) <= ClassSites THEN BuiltinClasses ELSE {"public"})
         /\ pc = "closure" /\ fi = 1 /\ res = "" /\ hops = <<>>
 
-Resolve(v, hop) == /\ res' = v /\ pc' = "done" /\ hops' = Append(hops, hop) /\ UNCHANGED <<S, r, strict, fi>>
-Pass(next, hop) == /\ pc' = next /\ hops' = Append(hops, hop) /\ UNCHANGED <<S, r, strict, fi, res>>
+Resolve(v, hop) == /\ res' = v /\ pc' = "done" /\ hops' = Append(hops, hop) /\ UNCHANGED <<S, r, strict, bclass, fi>>
+Pass(next, hop) == /\ pc' = next /\ hops' = Append(hops, hop) /\ UNCHANGED <<S, r, strict, bclass, fi, res>>
 
 HopClosure ==
   /\ pc = "closure"
@@ -105,7 +119,7 @@ HopClosure ==
      IF Active(f) # {} THEN Resolve(Value(First(f)), "closure")
      ELSE IF "LATE" \in S /\ f = BodyFrame /\ fi = 1 THEN Resolve("UnboundLocalError", "closure")
      ELSE IF fi < Len(Frames(r))
-          THEN /\ fi' = fi + 1 /\ hops' = Append(hops, "closure") /\ UNCHANGED <<S, r, strict, pc, res>>
+          THEN /\ fi' = fi + 1 /\ hops' = Append(hops, "closure") /\ UNCHANGED <<S, r, strict, bclass, pc, res>>
           ELSE Pass("module", "closure")
 HopModule == /\ pc = "module"
              /\ IF "MOD" \in S THEN Resolve("MOD", "module") ELSE Pass("import", "module")
@@ -118,10 +132,10 @@ HopBuiltin == /\ pc = "builtin"
               /\ IF "BUILTIN" \in S THEN Resolve("BUILTIN", "builtin") ELSE Pass("undefined", "builtin")
 HopUndefined == /\ pc = "undefined"
                 /\ Resolve(IF strict THEN "NameError" ELSE "UNDEFINED", "undefined")
-Case == [S |-> S, r |-> r, strict |-> strict, expect |-> res, hops |-> hops]
+Case == [S |-> S, r |-> r, strict |-> strict, bclass |-> bclass, expect |-> res, hops |-> hops]
 Done == /\ pc = "done" /\ pc' = "printed"
         /\ PrintT(ToJson(Case))
-        /\ UNCHANGED <<S, r, strict, fi, res, hops>>
+        /\ UNCHANGED <<S, r, strict, bclass, fi, res, hops>>
 Next == HopClosure \/ HopModule \/ HopImport \/ HopContext \/ HopBuiltin \/ HopUndefined \/ Done
 Spec == Init /\ [][Next]_vars
 
